@@ -171,6 +171,13 @@ def replay (j : Json) : R Verdict := do
   | none => pure ()
   if (fieldD stats "dupInflight").getBool?.toOption == some true then
     pf := ("C05", "one individual was being evaluated twice at the same time") :: pf
+  -- C09: a run that returned while finished evaluations were still undelivered was repeated with those evaluations
+  -- not finished; the delivered results are the same, so the returned report must be the same
+  let twin := fieldD j "twin"
+  if !twin.isNull then
+    if (fieldD twin "sameDelivered").getBool?.toOption == some true
+        && (fieldD twin "retA").compress != (fieldD twin "retB").compress then
+      pf := ("C09", s!"two runs with the same inputs in which the same results were delivered in the same order returned different reports: {(fieldD twin "retA").compress} when {(fieldD twin "withheld").compress} had finished but were not yet delivered, {(fieldD twin "retB").compress} when they had not finished") :: pf
   -- per-round scan: stop requests, failures, the return value
   let mut stopRound : Option Nat := none        -- first round whose stimulus was an abort request or a failure
   let mut firstFail : Option Nat := none        -- error code of a failure taken before any abort request
